@@ -335,6 +335,35 @@ pub fn run(run: &Run, sizes: &[usize]) -> (u64, u64) {
             }
         }
     }
+    // every operation sequence up to length 3 WITHOUT merging states: two histories that lead to the same observable
+    // table are both extended (an implementation may remember something the probes cannot see)
+    {
+        let mut seqs: Vec<Vec<Op>> = vec![];
+        for a in &alpha {
+            for b in &alpha {
+                seqs.push(vec![*a, *b]);
+                for c in &alpha {
+                    seqs.push(vec![*a, *b, *c]);
+                }
+            }
+        }
+        let n_all = std::sync::atomic::AtomicU64::new(0);
+        let combos: Vec<(usize, u8)> = sizes.iter().flat_map(|s| [0u8, 255].into_iter().map(move |g| (*s, g))).collect();
+        par_for(seqs.len(), |i| {
+            for (size, start_gen) in &combos {
+                n_all.fetch_add(1, std::sync::atomic::Ordering::Relaxed);
+                if let Err((at, m)) = run_history(*size, *start_gen, &seqs[i], &classes) {
+                    let h = &seqs[i];
+                    let kind = if m.contains("panicked") { "tt-panic" } else { "tt-policy" };
+                    run.violation(kind, format!("{kind}|size {size}|gen {start_gen}|{}", h[..at.min(h.len())].iter().map(|o| o.text()).collect::<Vec<_>>().join(" ")), case_json(*size, *start_gen, &h[..at.min(h.len())]), m);
+                }
+            }
+        });
+        let n = n_all.load(std::sync::atomic::Ordering::Relaxed);
+        run.family("E5-ALL-HISTORIES", &format!("sizes {sizes:?} MB x start generation {{0,255}} x every sequence of 2 or 3 operations over the same alphabet ({} sequences), no state merging; each executed with and without intermediate probes", seqs.len()), n, n * 3, true, "");
+        states += n;
+        transitions += n * 3;
+    }
     run.family("E5-TT-OPS", &format!("sizes {sizes:?} MB x start generation {{0,254,255}}, alphabet of {} operations (insert 4 keys [3 colliding in one slot] x depth {{1,2}} x bound {{exact,upper,lower}}, new-search, reset, resize), all sequences to depth {depth}, de-duplicated on the canonical table state", alpha.len()), states, transitions, true, "every probe of every key compared with the reference policy after every operation");
     (states, transitions)
 }
